@@ -121,6 +121,19 @@ func TestPropBloom(t *testing.T) {
 						bloomFalsePositives.Add(1)
 					}
 				}
+				// "false if the filter definitely does not contain v": a query is positive exactly
+				// when every bit that Insert(v) sets in an empty filter of the same shape is set
+				single := bloom.NewFilter(m, k)
+				single.Insert(append([]byte{}, key...))
+				covered := true
+				for i, b := range single.Bytes() {
+					if f.Bytes()[i]&b != b {
+						covered = false
+					}
+				}
+				if got != covered {
+					fail("bloom-contains-inconsistent-with-insert", fmt.Sprintf("Contains(%q)=%v but the bits Insert(%q) sets are covered=%v (m=%d,k=%d)", key, got, key, covered, m, k))
+				}
 			case op <= 15: // merge other into f: f becomes the filter of the union
 				o := 1 - fi
 				if len(sets[fi]) >= 2 && len(sets[o]) >= 2 {
